@@ -41,6 +41,52 @@ func H_String() {
 	}
 }
 
+// wideSeeds: code points at the boundaries that matter to escaping - ends of the BMP,
+// surrogate neighbours, format and private-use characters, astral printable and
+// non-printable ranges, the last code point.
+var wideSeeds = []rune{0x00ad, 0x061c, 0x200b, 0x2028, 0xd7ff, 0xe000, 0xfeff, 0xfffd, 0xffff,
+	0x10000, 0x1d173, 0x1f600, 0x2fa1d, 0x30000, 0xe0001, 0xe01ef, 0xf0000, 0x10ffff}
+
+// H_StringWide: strings around multi-byte code points. The last UTF-8 byte of the
+// seed code point is symbolic over all 64 continuation values, so every code
+// point of the seed's 64-block is covered, between an ASCII prefix and suffix.
+func H_StringWide() {
+	seed := wideSeeds[vf.Concretize(vf.Choice(len(wideSeeds)))]
+	enc := []byte(string(seed))
+	low := vf.Byte()
+	vf.Assume(low < 64)
+	enc[len(enc)-1] = 0x80 | low
+	s := string(enc)
+	vf.Assume(utf8.ValidString(s))
+	switch vf.Concretize(vf.Choice(3)) {
+	case 1:
+		s = "a" + s + "0"
+	case 2:
+		s = s + s
+	}
+	val := cty.StringVal(s)
+	src := hclwrite.TokensForValue(val).Bytes()
+	got, ok := readBack(src)
+	vf.Observe("src", src)
+	vf.Assert(ok, "string-literal-parses")
+	if ok {
+		vf.Assert(got.Type() == cty.String && !got.IsNull() && got.AsString() == val.AsString(), "string-literal-roundtrip")
+		vf.Reach("roundtrip")
+	}
+	// the same string as an object key and as a block label
+	f := hclwrite.NewEmptyFile()
+	f.Body().SetAttributeValue("k", cty.ObjectVal(map[string]cty.Value{s: cty.True}))
+	f.Body().AppendNewBlock("b", []string{s})
+	pf, diags := hclsyntax.ParseConfig(f.Bytes(), "w.hcl", hcl.InitialPos)
+	vf.Assert(!diags.HasErrors(), "generated-file-parses")
+	if !diags.HasErrors() {
+		body := pf.Body.(*hclsyntax.Body)
+		vf.Assert(len(body.Blocks) == 1 && len(body.Blocks[0].Labels) == 1 && body.Blocks[0].Labels[0] == val.AsString(), "label-roundtrip")
+		kv, kd := body.Attributes["k"].Expr.Value(nil)
+		vf.Assert(!kd.HasErrors() && kv.Type().IsObjectType() && kv.Type().HasAttribute(val.AsString()), "object-key-roundtrip")
+	}
+}
+
 func pickLeaf() cty.Value {
 	switch vf.Concretize(vf.Choice(9)) {
 	case 0:
